@@ -8,7 +8,7 @@ from props import c03
 PROPERTY = 'C13'
 LEVEL = 'exploration'
 RULE = ('G1 programs rendered with line comments, single-line and multi-line block comments in Hypothesis-chosen gaps '
-        '(restricted-production gaps get only comments without a line terminator), and repository snippets. Oracle: '
+        '(restricted-production gaps get only comments without a line terminator), repository snippets, and the ASI product of C04 restricted to separators that contain a comment (statement kind x comment/line-break arrangement x following text, incl. multi-line comments right after return/break/continue/throw). Oracle: '
         '(a) parse(s, with_comments=True) accepts iff parse(s) accepts and the canonical trees are equal; (b) every '
         'attached comment equals the source text at its recorded offset, the reference lexer has a comment of the '
         'same kind there, its line/column agree with reference counting, offsets strictly increase within a node and '
@@ -233,6 +233,10 @@ def plan(tier, seed):
     n = 2400 if tier == 'quick' else 100000
     shards = [{'name': 'g1-%d' % k, 'kind': 'g1', 'n': n // 16, 'hseed': seed * 1000 + k} for k in range(16)]
     shards.append({'name': 'corpus', 'kind': 'corpus'})
+    # statement x separator-with-comment x following text (the ASI product of C04): comments at and around
+    # every automatic-semicolon point and inside restricted productions, multi-line ones included
+    for k in range(16):
+        shards.append({'name': 'asi-%d' % k, 'kind': 'asi', 'k': k, 'of': 16, 'stride': 6 if tier == 'quick' else 1})
     return shards
 
 
@@ -249,7 +253,19 @@ def run_shard(shard):
             acc.label('attached_%d' % min(info['attached'], 6))
             acc.extra['comments_attached'] = acc.extra.get('comments_attached', 0) + info['attached']
             acc.extra['comments_in_sources'] = acc.extra.get('comments_in_sources', 0) + info['source_comments']
-    if shard['kind'] == 'g1':
+    if shard['kind'] == 'asi':
+        from props import c04
+        n = 0
+        for idx, (src, meta) in enumerate(c04.product_cases()):
+            if '/*' not in meta[1] and '//' not in meta[1]:
+                continue
+            n += 1
+            if n % shard['of'] != shard['k']:
+                continue
+            if shard['stride'] > 1 and (n // shard['of']) % shard['stride'] != shard['seed'] % shard['stride']:
+                continue
+            one(src, 'asi_product')
+    elif shard['kind'] == 'g1':
         strat = gen_program.program_strategy(layout_levels=(3,), max_fuel=5)
         run_given(strat, lambda p: one(p['text'], 'g1'), shard['n'], shard['hseed'], acc)
     else:
